@@ -13,6 +13,6 @@ rsync -a --exclude .git --exclude '*.pymoca_cache' --exclude '*.so' /repo/ "$wor
 ( cd "$work/repo" && patch -p1 -s --no-backup-if-mismatch < "$patch_file" ) || { echo "PATCH-FAILED $patch_file"; exit 3; }
 cd "$(dirname "$0")/.."
 for s in $seeds; do
-  out=$(VERIF_REPO="$work/repo" VERIF_SEED=$s ./check "$id" "$tier" 2>&1); rc=$?
+  out=$(VERIF_REPO="$work/repo" VERIF_EVIDENCE_DIR="$work/evidence" VERIF_SEED=$s ./check "$id" "$tier" 2>&1); rc=$?
   echo "$id $(basename "$patch_file") seed=$s rc=$rc :: $(echo "$out" | grep -m1 -E 'VIOLATION|HARNESS' || echo "$out" | tail -1)"
 done
